@@ -186,7 +186,16 @@ func runCheck(repo, verif, prop, tier string, t0 time.Time) (int, error) {
 	// an obligation left undecided may only have run out of time because the machine was busy: every
 	// undecided one is tried again, two at a time, with twice the budget and all three solvers, before it is reported
 	var again []*Obligation
+	knownNames := map[string]bool{}
+	for _, k := range known.Findings {
+		if k.Property == prop {
+			knownNames[k.Obligation] = true
+		}
+	}
 	for _, o := range obls {
+		if knownNames[stableName(o.Name)] {
+			continue // a listed finding is expected to stay undecided / refuted: no second attempt
+		}
 		if o.Status != "discharged" && o.Status != "failed" && o.Status != "disagreement" && !o.Projected {
 			again = append(again, o)
 		}
